@@ -421,15 +421,23 @@ def c18_runs(tier):
 
 
 def c14_runs(tier):
-    r = []
-    sig = [x for x in c10_runs(tier, hb=1) if x['name'] in ('two-threads', 'one-thread.I2')]
-    sig += [x for x in c11_runs(tier, hb=1) if x['name'] == 'spawn+kill']
-    sig += [x for x in work_runs(tier, hb=1) if x['name'] != 'null-pool']
     q = tier == 'quick'
+    allruns = (c08_runs(tier, hb=1) + c09_runs(tier, hb=1) +
+               [x for x in c10_runs(tier, hb=1) if x['name'] in ('two-threads', 'one-thread.I2')] +
+               [x for x in c11_runs(tier, hb=1) if x['name'] in ('spawn+kill', 'two-loops.spawn-exits-at-once')] +
+               [x for x in work_runs(tier, hb=1) if x['name'] != 'null-pool'])
     for m, nm in ((1, 'epoll'), (0, 'epoll-timerfd'), (3, 'poll')):
-        sig.append(mt_run('loops.' + nm, 'harness/loops_mt.c', ['loops.concurrent-init-run-deinit'],
-                          preempt=2 if q else 3, threads=2, rounds=1 if q else 2, method=m))
-    for x in c08_runs(tier, hb=1) + c09_runs(tier, hb=1) + sig:
+        allruns.append(mt_run('loops.' + nm, 'harness/loops_mt.c', ['loops.concurrent-init-run-deinit'],
+                              preempt=2 if q else 3, threads=2, rounds=1 if q else 2, method=m))
+    if q:
+        keep = ('posters.epoll-kick', 'posters.rawevent-poll', 'owner-activity.epoll', 'pipe-transport',
+                'threads.eventfd2', 'threads.pipe', 'signal.eventfd2', 'one-thread.I2', 'spawn+kill',
+                'two-loops.spawn-exits-at-once', 'burst.max1.put-after', 'burst.max2.put-after',
+                'chain.put-in-completion', 'idle-timeout.late-submit', 'continuation.put-late', 'iv_thread',
+                'loops.epoll', 'loops.epoll-timerfd', 'loops.poll')
+        allruns = [x for x in allruns if x['name'] in keep]
+    r = []
+    for x in allruns:
         x = dict(x)
         x['name'] = 'race.' + x['name']
         r.append(x)
